@@ -206,6 +206,8 @@ def split(ck, sh, mm, gname, sname, boundary, radials):
     if rad and sname in ('first-of-two', 'only-medium'):
         return
     bnd = 'circular' if rad else boundary
+    if bnd == 'linear' and lo == 0.0:
+        lo = -2.0            # a linear boundary may lie at x = 0 or at negative x (a radius may not)
     for th, ph in DIRS[:2] if ck.tier == 'quick' else DIRS:
         def fn(th=th, ph=ph):
             c = symx.ctx()
